@@ -22,6 +22,27 @@ def c04_fault_inside_schema_doc_action(events, violation):
   return kind in ("F2sch", "F3s", "F3r", "F3x") and action in SCHEMA_ACTIONS
 
 
+_RECURSIVE_MARKERS = ("x.append(x)", "setdefault('self', d)", "f(f, ")
+
+
+def c24_recursive_value_encoding_depends_on_stack_depth(events, violation):
+  """F-v: a formula returns a self-referential or extremely deep container. encode_object recurses
+  until RecursionError and then falls back to repr, so *where* the nesting is cut depends on how
+  deep the Python stack already is at the call site: the same cell is encoded to depth N in an
+  action bundle and to depth N+1 in fetch_table, and a reopened document re-emits it."""
+  if violation.get("oracle") not in ("replica-state", "roundtrip", "reopen-calculate-emits",
+                                     "reload-failed", "roundtrip-raised"):
+    return False
+  last = None
+  for ev in events:
+    for a in ev.get("a", []) if isinstance(ev.get("a"), list) else []:
+      if a[0] == "AddColumn" and isinstance(a[3], dict) and any(
+          m in (a[3].get("formula") or "") for m in _RECURSIVE_MARKERS):
+        last = a
+  detail = violation.get("detail", "")
+  return last is not None and ("deep" in detail or "RecursionError" in detail)
+
+
 def c04_fault_mid_record_doc_action(events, violation):
   """F-u: BulkUpdateRecord / BulkRemoveRecord / ReplaceTableData append their undo action only
   after mutating the columns, so an exception between two Column.set calls leaves cells changed
